@@ -315,7 +315,8 @@ Record wf_cfg (c : cfg) : Prop := {
   wf_chan : forall r, In r (c_relays c) -> 0 <= r_chan r < 8;
   wf_gpio : forall r, In r (c_relays c) -> 0 <= r_gpio r < 16;
   wf_late : forall j, In j (c_late c) -> 0 <= j;
-  wf_boot : 0 <= c_boot c; wf_boot2 : 0 <= c_boot2 c
+  wf_boot : 0 <= c_boot c; wf_boot2 : 0 <= c_boot2 c;
+  wf_len : (length (c_relays c) <= 8)%nat          (* RELAY_MAX_COUNT *)
 }.
 
 Record SlotOK (s : st) (x : slot) : Prop := {
@@ -1618,7 +1619,7 @@ Proof.
   remember (set_slots (repeat slot_free 8) (set_delay 0 s2)) as s3 eqn:Es3.
   remember (set_chfl (if c_lateflags c then map (fun _ => 0) (c_relays c) else map r_chfl (c_relays c)) s3) as s4 eqn:Es4.
   remember (set_obuf [] (set_regreq false (set_queue [] (set_conn false (set_reg false (set_gout 0 s4)))))) as s5 eqn:Es5.
-  remember (fold_left (restore_relay e c) (enum 0 (c_relays c)) s5) as s6 eqn:Es6.
+  remember (fold_left (restore_relay false c) (enum 0 (c_relays c)) s5) as s6 eqn:Es6.
   assert (A5 : slots s5 = repeat slot_free 8 /\ delay s5 = 0 /\ tcd s5 = tmr0 /\ cnt0 s5 = cnt0 s /\ tb s5 = tb s /\ now s5 = now s /\
                upc s5 = 0 /\ upl s5 = 0 /\ outs s5 = outs s /\ time2 s5 = time2 s).
   { subst s5 s4 s3 s2 s1. cbn. repeat split; reflexivity. }
@@ -1641,7 +1642,7 @@ Proof.
   assert (F7' : frame s7 s') by (subst s'; constructor; cbn; try reflexivity; try lia; exists []; auto).
   pose proof (frame_trans _ _ _ F67 F7') as F6'.
   assert (N6 : NWw s6) by (eapply NW_frame; eauto).
-  destruct (fold_restore_spec e c _ s5 s6 Es6 W (enum_snd _ 0) G5 N6) as (G6 & E6).
+  destruct (fold_restore_spec false c _ s5 s6 Es6 W (enum_snd _ 0) G5 N6) as (G6 & E6).
   assert (F56 : frame s5 s6) by (subst s6; apply fold_restore_frame).
   assert (P67 : passive s6 s7).
   { assert (N7 : NWw s7) by (eapply NW_frame; [exact F7'|exact N]).
@@ -2292,6 +2293,50 @@ Proof.
     split; auto. eapply finsrc_trans; eauto. subst s1. apply restore_relay_frame.
 Qed.
 
+(* without the evaluation of the running slots a restored relay costs one relay operation *)
+Lemma now_startstop s : now (startstop s) = now s.
+Proof. unfold startstop. destruct (_ || _); [destruct (0 <? _)|]; reflexivity. Qed.
+Lemma now_arm_slot c ms g ch tg sd s : now (countdown_arm_slot c ms g ch tg sd s) = now s.
+Proof.
+  unfold countdown_arm_slot. destruct (match find_slot _ _ _ with Some _ => _ | None => _ end) as [i|]; [|reflexivity].
+  assert (N1 : now (fst (uptime_msec s)) = now s) by reflexivity.
+  destruct (uptime_msec s) as [s1 u]. cbn [fst] in N1. rewrite now_startstop, now_t2_set. cbn [now set_slots emit set_outs]. exact N1.
+Qed.
+Lemma now_disarm c ch s : now (disarm c ch s) = now s.
+Proof.
+  unfold disarm. destruct (find_slot _ _ _) as [i|]; [|reflexivity]. destruct (0 <? _); [|reflexivity].
+  destruct (chflags_of _ _ _); [destruct (hasf _ _)|]; rewrite ?now_ext_changed, now_t2_set; reflexivity.
+Qed.
+Lemma now_sdt_false c ch v dur sd s : now (set_duration_timer false c ch v dur sd s) = now s.
+Proof.
+  unfold set_duration_timer.
+  set (stair := (ch <? ST_T2_COUNT) && (ch <? T2_COUNT) && (0 <? getz (time2 s) ch)).
+  set (s0 := if stair && (v =? 0) then set_ram_t2 (setz (ram_t2 s) ch 0) s else s).
+  assert (N0 : now s0 = now s) by (unfold s0; destruct (stair && (v =? 0)); reflexivity).
+  set (dur1 := if stair then _ else dur). clearbody dur1.
+  destruct (0 <? dur1); [|rewrite now_disarm; exact N0].
+  destruct (find_chan _ _ _) as [[a r]|]; [|rewrite now_disarm; exact N0].
+  set (s1 := disarm c (u8 ch) s0). assert (N1 : now s1 = now s) by (unfold s1; rewrite now_disarm; exact N0).
+  set (hf := hasf (getz (chfl s1) a) CHFLAG_COUNTDOWN). clearbody hf.
+  assert (N2 : now (if (v =? 1) || hf then countdown false c (u32 dur1) (r_gpio r) (u8 ch) (if v =? 0 then 1 else 0) sd s1 else s1) = now s).
+  { destruct ((v =? 1) || hf); [|exact N1]. unfold countdown. rewrite now_arm_slot. exact N1. }
+  destruct hf; [rewrite now_ext_changed|]; exact N2.
+Qed.
+Lemma restore_now_false c s ar : now s <= now (restore_relay false c s ar) <= now s + OP.
+Proof.
+  assert (OPpos : 0 <= OP) by (destruct consts_ok; unfold OP; lia).
+  destruct ar as [a r]. unfold restore_relay. destruct (_ || _).
+  - rewrite now_relay_hi. destruct (_ && _); [rewrite now_sdt_false|]; lia.
+  - destruct (hasf _ _); [rewrite now_relay_hi|]; lia.
+Qed.
+Lemma fold_restore_now_false c l : forall s, now (fold_left (restore_relay false c) l s) <= now s + Z.of_nat (length l) * OP.
+Proof.
+  induction l as [|ar l IH]; intros s; cbn [fold_left length]; [lia|].
+  pose proof (IH (restore_relay false c s ar)). pose proof (restore_now_false c s ar). rewrite Nat2Z.inj_succ. lia.
+Qed.
+Lemma enum_length {A} (l : list A) : forall i, length (enum i l) = length l.
+Proof. induction l as [|x l IH]; intros i; cbn; auto. Qed.
+
 (* the part of J that survives a restart: the bound on the switch-backs already in the trace *)
 Definition OTO (e : bool) (S : Z) (l : list out) : Prop :=
   e = true -> forall tcb ch tg t0 dur u0 u, In (GFinish tcb ch tg t0 dur u0 u) l -> tcb < t0 + dur * 1000 + OTB S.
@@ -2306,7 +2351,7 @@ Proof.
   remember (set_slots (repeat slot_free 8) (set_delay 0 s2)) as s3 eqn:Es3.
   remember (set_chfl (if c_lateflags c then map (fun _ => 0) (c_relays c) else map r_chfl (c_relays c)) s3) as s4 eqn:Es4.
   remember (set_obuf [] (set_regreq false (set_queue [] (set_conn false (set_reg false (set_gout 0 s4)))))) as s5 eqn:Es5.
-  remember (fold_left (restore_relay e c) (enum 0 (c_relays c)) s5) as s6 eqn:Es6.
+  remember (fold_left (restore_relay false c) (enum 0 (c_relays c)) s5) as s6 eqn:Es6.
   assert (A5 : slots s5 = repeat slot_free 8 /\ delay s5 = 0 /\ tcd s5 = tmr0 /\ cnt0 s5 = cnt0 s /\ tb s5 = tb s /\ now s5 = now s /\
                upc s5 = 0 /\ upl s5 = 0 /\ outs s5 = outs s).
   { subst s5 s4 s3 s2 s1. cbn. repeat split; reflexivity. }
@@ -2324,42 +2369,64 @@ Proof.
     - intros x Hx Ax. destruct (free_inactive x Hx). congruence.
     - apply TO.
     - intros x Hx Ax. rewrite a1 in Hx. destruct (free_inactive x Hx). congruence. }
-  assert (J5 : J e S s5).
+  assert (J5 : J false S s5).
   { constructor; rewrite ?a1, ?a3, ?a9.
     - cbn. intros; discriminate.
-    - intros _ x Hx Ax. destruct (free_inactive x Hx). congruence.
-    - exact OT. }
+    - intros; discriminate.
+    - intros; discriminate. }
   remember (fst (uptime_usec s6)) as s7 eqn:Es7.
   assert (F67 : frame s6 s7) by (subst s7; apply frame_uptime_usec).
   assert (F7' : frame s7 s') by (subst s'; constructor; cbn; try reflexivity; try lia; exists []; auto).
   pose proof (frame_trans _ _ _ F67 F7') as F6'.
   assert (N6 : NWw s6) by (eapply NW_frame; eauto).
   assert (SL6 : Slack S (outs s6)) by (eapply Slack_frame; eauto).
-  destruct (fold_restore_spec e c _ s5 s6 Es6 W (enum_snd _ 0) G5 N6) as (G6 & E6).
-  destruct (fold_restore_J e S c _ s5 s6 Es6 W (enum_snd _ 0) G5 J5 N6 SL6 HS) as (J6 & (add & O6 & Sr6)).
+  destruct (fold_restore_spec false c _ s5 s6 Es6 W (enum_snd _ 0) G5 N6) as (G6 & E6).
+  destruct (fold_restore_J false S c _ s5 s6 Es6 W (enum_snd _ 0) G5 J5 N6 SL6 HS) as (J6 & (add & O6 & Sr6)).
   assert (P67 : passive s6 s7).
   { assert (N7 : NWw s7) by (eapply NW_frame; [exact F7'|exact N]).
     rewrite Es7. apply passive_uptime_usec; [apply (i_clk _ (g_inv _ G6))|rewrite <- Es7; exact N7]. }
-  destruct (JF_passive e S _ _ P67 G6 J6) as [[Jd Jq Jo] (add7 & O7 & Sr7)].
-  split.
-  - subst s'. constructor; cbn; auto.
-  - exists (add7 ++ add). split.
-    + subst s'. cbn [outs set_seqc]. rewrite O7, O6, a9, app_assoc. reflexivity.
-    + intros tcb ch tg t0 dur u0 u H. apply in_app_or in H. destruct H as [H|H].
-      * destruct (Sr7 _ _ _ _ _ _ _ H) as [(x & Hx & Ax & Ec & Et)|Hl].
-        -- destruct (E6 x Hx Ax) as [(x0 & Hx0 & Ax0 & _)|[A _]]; [|lia].
-           rewrite a1 in Hx0. destruct (free_inactive x0 Hx0). congruence.
-        -- destruct (fold_restore_frame e c (enum 0 (c_relays c)) s5). rewrite <- Es6 in *. lia.
-      * destruct (Sr6 _ _ _ _ _ _ _ H) as [(x & Hx & Ax & _)|Hl]; [|lia].
-        rewrite a1 in Hx. destruct (free_inactive x Hx). congruence.
+  assert (G7 : Good s7) by (eapply Good_passive; eauto).
+  destruct (JF_passive false S _ _ P67 G6 J6) as [[Jd _ _] (add7 & O7 & Sr7)].
+  (* the loop took at most one relay operation per relay *)
+  assert (OPpos : 0 <= OP) by (destruct consts_ok; unfold OP; lia).
+  assert (Tb : now s7 <= now s + 8 * OP).
+  { pose proof (fold_restore_now_false c (enum 0 (c_relays c)) s5) as B. rewrite <- Es6, enum_length, a6 in B.
+    pose proof (wf_len _ W) as L. assert (now s7 = now s6) by (subst s7; reflexivity). nia. }
+  assert (New : forall tcb ch tg t0 dur u0 u, In (GFinish tcb ch tg t0 dur u0 u) (add7 ++ add) -> now s <= t0).
+  { intros tcb ch tg t0 dur u0 u H. apply in_app_or in H. destruct H as [H|H].
+    - destruct (Sr7 _ _ _ _ _ _ _ H) as [(x & Hx & Ax & Ec & Et)|Hl].
+      + destruct (E6 x Hx Ax) as [(x0 & Hx0 & Ax0 & _)|[A _]]; [|lia].
+        rewrite a1 in Hx0. destruct (free_inactive x0 Hx0). congruence.
+      + destruct (fold_restore_frame false c (enum 0 (c_relays c)) s5). rewrite <- Es6 in *. lia.
+    - destruct (Sr6 _ _ _ _ _ _ _ H) as [(x & Hx & Ax & _)|Hl]; [|lia].
+      rewrite a1 in Hx. destruct (free_inactive x Hx). congruence. }
+  assert (O' : outs s' = (add7 ++ add) ++ outs s) by (subst s'; cbn [outs set_seqc]; rewrite O7, O6, a9, app_assoc; reflexivity).
+  split; [|exists (add7 ++ add); split; [exact O'|exact New]].
+  assert (S' : slots s' = slots s6) by (subst s'; cbn [slots set_seqc]; apply P67).
+  assert (Tc' : tcd s' = tcd s7) by (subst s'; reflexivity).
+  assert (Nw' : now s' = now s7) by (subst s'; reflexivity).
+  constructor.
+  - rewrite Tc', Nw'. exact Jd.
+  - intros He x Hx Ax. rewrite S' in Hx. rewrite Tc'.
+    assert (Hx7 : In x (slots s7)) by (rewrite (pa_slots _ _ P67); exact Hx).
+    destruct (g_t1 _ G7 x Hx7 Ax) as (On & _). specialize (Jd On).
+    destruct (i_ok _ (g_inv _ G6) x Hx Ax) as [_ _ _ _ _ _ (T1' & T2' & T3')].
+    assert (now s <= g_t0 x).
+    { destruct (E6 x Hx Ax) as [(x0 & Hx0 & Ax0 & _)|[A _]]; [|lia]. rewrite a1 in Hx0. destruct (free_inactive x0 Hx0). congruence. }
+    unfold BQ. lia.
+  - intros He tcb ch tg t0 dur u0 u H. rewrite O' in H. apply in_app_or in H. destruct H as [H|H]; [|apply (OT He _ _ _ _ _ _ _ H)].
+    pose proof (New _ _ _ _ _ _ _ H) as Ht0.
+    assert (H7 : In (GFinish tcb ch tg t0 dur u0 u) (outs s7)) by (rewrite O7, O6; rewrite app_assoc; apply in_or_app; left; exact H).
+    destruct (tr_fin _ (g_tr _ G7) _ _ _ _ _ _ _ H7) as (A & B & C & _).
+    pose proof WB_range. destruct consts_ok. unfold OTB, BQ. nia.
 Qed.
 
 Lemma boot_outs e c s : exists add, outs (boot e c s) = add ++ outs s.
 Proof.
   unfold boot, boot_l.
   set (s5 := set_obuf [] _).
-  set (s6 := fold_left (restore_relay e c) (enum 0 (c_relays c)) s5).
-  destruct (fold_restore_frame e c (enum 0 (c_relays c)) s5) as [_ _ _ (a & E)]. fold s6 in E.
+  set (s6 := fold_left (restore_relay false c) (enum 0 (c_relays c)) s5).
+  destruct (fold_restore_frame false c (enum 0 (c_relays c)) s5) as [_ _ _ (a & E)]. fold s6 in E.
   eexists (_ :: a). unfold uptime_usec. cbn [fst outs set_seqc set_upl set_upc emit set_outs]. rewrite E. reflexivity.
 Qed.
 Lemma step_outs e c s x : wf_ev x -> exists add, outs (step e c s x) = add ++ outs s.
@@ -2917,11 +2984,11 @@ Proof.
 Qed.
 Definition wf_cfgb (c : cfg) : bool :=
   forallb (fun r => (0 <=? r_chan r) && (r_chan r <? 8) && (0 <=? r_gpio r) && (r_gpio r <? 16)) (c_relays c) &&
-  forallb (fun j => 0 <=? j) (c_late c) && (0 <=? c_boot c) && (0 <=? c_boot2 c).
+  forallb (fun j => 0 <=? j) (c_late c) && (0 <=? c_boot c) && (0 <=? c_boot2 c) && (length (c_relays c) <=? 8)%nat.
 Lemma wf_cfgb_ok c : wf_cfgb c = true -> wf_cfg c.
 Proof.
-  unfold wf_cfgb. rewrite !andb_true_iff, !forallb_forall. intros [[[A B] C] D].
-  constructor; try (apply Z.leb_le; auto).
+  unfold wf_cfgb. rewrite !andb_true_iff, !forallb_forall. intros [[[[A B] C] D] L].
+  constructor; try (apply Z.leb_le; auto); try (apply Nat.leb_le; exact L).
   - intros r Hr. specialize (A r Hr). rewrite !andb_true_iff in A. destruct A as [[[A1 A2] _] _]. apply Z.leb_le in A1. apply Z.ltb_lt in A2. lia.
   - intros r Hr. specialize (A r Hr). rewrite !andb_true_iff in A. destruct A as [[_ A3] A4]. apply Z.leb_le in A3. apply Z.ltb_lt in A4. lia.
   - intros j Hj. apply Z.leb_le. auto.
